@@ -6,6 +6,13 @@ package main
 import (
 	"bytes"
 	"fmt"
+	"github.com/storacha/go-ucanto/core/dag/blockstore"
+	"github.com/storacha/go-ucanto/core/ipld"
+	"github.com/storacha/go-ucanto/core/ipld/block"
+	"github.com/storacha/go-ucanto/core/ipld/codec/cbor"
+	"github.com/storacha/go-ucanto/core/ipld/hash/sha256"
+	"github.com/storacha/go-ucanto/ucan/crypto/signature"
+	udm "github.com/storacha/go-ucanto/ucan/datamodel/ucan"
 	"net/http"
 	"net/http/httptest"
 	"net/url"
@@ -29,6 +36,7 @@ func init() {
 	execs["delegwin"] = guard(execDelegWin)
 	execs["clientexec"] = guard(execClientExec)
 	execs["rsatag"] = guard(execRsaTag)
+	execs["rsastrip"] = guard(execRsaStrip)
 }
 
 // execDelegWin: a self-issued invocation issued through invocation.Invoke with the given window options,
@@ -177,4 +185,41 @@ func parseAnyVerifier(s string) (principal.Verifier, error) {
 		return v, nil
 	}
 	return rsaverifier.Parse(s)
+}
+
+// execRsaStrip: an RS256 token whose signature begins with a zero byte; the same token with that byte
+// removed (a shorter byte string) must not verify. args = [rsa key index]
+func execRsaStrip(a []string) Result {
+	pools()
+	sg := rsaPool[atoi(a[0])%len(rsaPool)]
+	aud := edPool[3]
+	for i := 0; i < 4000; i++ {
+		d, err := delegation.Delegate(sg, aud, []ucan.Capability[NbMap]{ucan.NewCapability("store/add", sg.DID().String(), NbMap{F: map[string]any{}})},
+			delegation.WithNoExpiration(), delegation.WithNonce(fmt.Sprintf("z%d", i)))
+		if err != nil {
+			return Result{Impl: "issue-error"}
+		}
+		raw := d.Signature().Raw()
+		if len(raw) == 0 || raw[0] != 0 {
+			continue
+		}
+		ok, _ := ucan.VerifySignature(d.Data(), sg.Verifier())
+		m := *d.Data().Model()
+		m.S = signature.NewSignature(d.Signature().Code(), raw[1:]).Bytes()
+		rt, err := block.Encode(&m, udm.Type(), cbor.Codec, sha256.Hasher)
+		if err != nil {
+			return Result{Impl: "encode-error"}
+		}
+		bs, _ := blockstore.NewBlockStore(blockstore.WithBlocks([]ipld.Block{rt}))
+		ad, _ := delegation.NewDelegation(rt, bs)
+		alt, _ := ucan.VerifySignature(ad.Data(), sg.Verifier())
+		oracle := "ok"
+		if !ok {
+			oracle = "fail:C07-unverified a freshly issued RS256 token whose signature starts with a zero byte does not verify"
+		} else if alt {
+			oracle = "fail:C07-undetected kind=sig-strip-leading-zero the altered token still verifies"
+		}
+		return Result{Impl: fmt.Sprintf("issued=%v|altered=%v", ok, alt), Oracle: oracle, Extra: map[string]any{"nonce": i}}
+	}
+	return Result{Impl: "skip:no such signature found"}
 }
